@@ -148,11 +148,16 @@ def gen_program(rng, slack, pi=0, solo=False):
                 dmax = nbytes
             length = nbytes
             span = nbytes
-            if fn == "strzero_s" and st != NOESC:   # non-escaping targets hold the NUL-free pattern throughout
+            if fn == "strzero_s" and st != NOESC:
                 if rng.random() < 0.5:
                     nulpos = rng.randrange(0, nbytes)
                     if not slack:
                         length = nulpos
+            elif fn == "strzero_s" and slack and nbytes >= 32 and rng.random() < 0.5:
+                # a dead local holding a SHORT string with older secret data behind its terminator: the bytes in front of the
+                # NUL are cleared by the byte loop, the rest by the slack fill -- both must survive the optimiser.
+                # At least 16 pattern bytes follow the NUL so that the stack scan can recognise what is left of them.
+                nulpos = rng.randrange(0, nbytes - 16)
             tail = rng.randint(16, 31)
             total = lead + dmax + tail
             base = dict(fn=fn, storage=st, unit=unit, count=count, nbytes=nbytes, dmax=dmax, value=value, lead=lead,
@@ -266,8 +271,9 @@ def noescape_victim(v):
     call = ("wipe%d(%s)" % (k, tgt)) if sh == "helper" else erase_expr(v, tgt)
     o += ["int v%d(void) {" % k,
           "    %s unsigned i, j, h = 0;" % decl,
-          "    for (i = 0; i < %du; i++) %s[%d + i] = c18_magic[i & 15];" % (N, arr, L),
-          "    j = c18_salt;",
+          "    for (i = 0; i < %du; i++) %s[%d + i] = c18_magic[i & 15];" % (N, arr, L)] + \
+         (["    %s[%d] = 0;" % (arr, L + v["nulpos"])] if v["nulpos"] >= 0 else []) + \
+         ["    j = c18_salt;",
           "    for (i = 0; i < %du; i++) { j = (j * 5u + 3u) %% %du; h = h * 31u + %s[%d + j]; }" % (N, N, arr, L),
           "    c18_sink = h;",
           "    return %s;" % call,
